@@ -1355,14 +1355,18 @@ namespace jsoncons {
             if (other.storage_kind() == json_storage_kind::const_json_ref)
             {
                 auto alloc = get_allocator();
+                basic_json temp; // the copy is made first: if it throws, *this is untouched
+                temp.uninitialized_copy_a(other.cast<const_json_ref_storage>().value(), alloc);
                 destroy();
-                uninitialized_copy_a(other.cast<const_json_ref_storage>().value(), alloc);
+                uninitialized_move(std::move(temp));
             }
             else if (other.storage_kind() == json_storage_kind::json_ref)
             {
                 auto alloc = get_allocator();
+                basic_json temp; // the copy is made first: if it throws, *this is untouched
+                temp.uninitialized_copy_a(other.cast<json_ref_storage>().value(), alloc);
                 destroy();
-                uninitialized_copy_a(other.cast<json_ref_storage>().value(), alloc);
+                uninitialized_move(std::move(temp));
             }
             else if (is_primitive_storage(other.storage_kind()))
             {
@@ -1376,15 +1380,19 @@ namespace jsoncons {
                     case json_storage_kind::long_str:
                     {
                         auto alloc = cast<long_string_storage>().get_allocator();
+                        basic_json temp; // the copy is made first: if it throws, *this is untouched
+                        temp.uninitialized_copy_a(other, alloc);
                         destroy();
-                        uninitialized_copy_a(other, alloc);
+                        uninitialized_move(std::move(temp));
                         break;
                     }
                     case json_storage_kind::byte_str:
                     {
                         auto alloc = cast<byte_string_storage>().get_allocator();
+                        basic_json temp; // the copy is made first: if it throws, *this is untouched
+                        temp.uninitialized_copy_a(other, alloc);
                         destroy();
-                        uninitialized_copy_a(other, alloc);
+                        uninitialized_move(std::move(temp));
                         break;
                     }
                     case json_storage_kind::array:
@@ -1406,8 +1414,10 @@ namespace jsoncons {
             else // lhs and rhs are not trivial storage
             {
                 auto alloc = get_allocator();
+                basic_json temp; // the copy is made first: if it throws, *this is untouched
+                temp.uninitialized_copy_a(other, alloc);
                 destroy();
-                uninitialized_copy_a(other, alloc);
+                uninitialized_move(std::move(temp));
             }
         }
 
